@@ -59,6 +59,15 @@ class Ctx(object):
         self._viol_sigs = set()
         self.out_lines = []
         self.sig_counts = collections.Counter()
+        # replay files of an earlier run of this tier are stale now
+        d = os.path.join(REPLAY_DIR, pid)
+        if os.path.isdir(d):
+            for fn in os.listdir(d):
+                if fn.startswith(tier + "-"):
+                    try:
+                        os.unlink(os.path.join(d, fn))
+                    except OSError:
+                        pass
 
     # ---- bookkeeping ------------------------------------------------------
     def count(self, key, n=1):
@@ -157,6 +166,14 @@ class Ctx(object):
 
 def _match(m, sig):
     for k, v in m.items():
+        if k.endswith("__has_part"):
+            if v not in str(sig.get(k[:-10], "")).split("+"):
+                return False
+            continue
+        if k.endswith("__parts_in"):
+            if not all(p in v for p in str(sig.get(k[:-10], "")).split("+")):
+                return False
+            continue
         sv = sig.get(k)
         if isinstance(v, list):
             if sv not in v:
